@@ -30,7 +30,7 @@ def run_demo(wt, d, meta):
         shutil.rmtree(tdir, ignore_errors=True)
     return rc, out
 
-def confirm(wt, prop, mn):
+def confirm(wt, prop, mn, tag=''):
     d = os.path.join(wt, '_out', mn)
     meta = json.load(open(os.path.join(d, 'meta.json')))
     env = {'CARGO_TARGET_DIR': os.path.join(wt, 'target'), 'CARGO_NET_OFFLINE': 'true'}
@@ -49,7 +49,7 @@ def confirm(wt, prop, mn):
     if not ok:
         print(out_t[-800:] if not tests_ok else (out_d1[-600:] + '\n----\n' + out_d0[-600:]))
         return False
-    sid = '%s-%s' % (prop, mn)
+    sid = '%s-%s%s' % (prop, tag, mn)
     dst = os.path.join(SEEDED, sid)
     os.makedirs(dst, exist_ok=True)
     for f in os.listdir(d):
@@ -83,7 +83,7 @@ def evaluate(sid, props):
         for p in props:
             t0 = time.time()
             rc, out = sh('./check %s' % p, cwd=ROOT, timeout=3000)
-            lines = [l for l in out.split('\n') if l.startswith(('VIOLATION', 'FAILED OBLIGATION', 'UNDECIDED', 'witness', 'KNOWN'))]
+            lines = [l for l in out.split('\n') if l.startswith(('VIOLATION', 'FAILED OBLIGATION', 'UNDECIDED', 'witness', 'KNOWN')) or 'proof undecided' in l]
             res[p] = {'exit': rc, 'lines': lines[:8], 'wall_s': round(time.time() - t0, 1)}
             print('%s on %s: exit %d  %s' % (sid, p, rc, ' | '.join(lines[:3])[:400]))
     finally:
@@ -96,6 +96,6 @@ def evaluate(sid, props):
 
 if __name__ == '__main__':
     if sys.argv[1] == 'confirm':
-        confirm(sys.argv[2], sys.argv[3], sys.argv[4])
+        confirm(sys.argv[2], sys.argv[3], sys.argv[4], sys.argv[5] if len(sys.argv) > 5 else '')
     elif sys.argv[1] == 'eval':
         evaluate(sys.argv[2], sys.argv[3:])
